@@ -3,7 +3,7 @@ CONSTANTS
   FullRead = TRUE
   ZeroLenOK = TRUE
   Pfx = 2
-  ScalarTypes = {"u32", "vu64"}
+  ScalarTypes = {"u32"}
   ScalarIdx = {0, 1}
   ByteToks <- MCByteSmall
   Lims = {0, 1}
